@@ -61,7 +61,22 @@ def gen_foreign(rng):
     # now and then a file with thousands of blank lines between sections
     # and at its end
     gaps = rng.random() < 0.01
-    st = Style(rng=rng,
+    extra = None
+    if rng.random() < 0.3:
+        # options a producer adds for itself, with every kind of value the
+        # grammar allows (integers - negative, zero-padded, huge - must come
+        # back as integers)
+        def extra(index, sid, pairs):
+            if rng.random() < 0.4:
+                k = rng.choice(['x-n', 'tz-offset', 'rev', 'net', 'Build_9'])
+                v = rng.choice(['-8', '0', '12', '-0', '007', 'a1b2',
+                                '4407312', 'text/x', '1.5', '-', '9' * 30,
+                                '-15', '0-1'])
+                if not any(kk == k for kk, _ in pairs):
+                    pairs = pairs + [(k, v)]
+                    rng.shuffle(pairs)
+            return pairs
+    st = Style(rng=rng, extra=extra,
                shuffle=rng.random() < 0.7,
                blank=rng.choice([0, 0, 1, 3]) if not gaps else 4000,
                crlf_headers=rng.random() < 0.35,
